@@ -9,7 +9,12 @@ MANIFEST = dict(
          "checked refutation). API histories run on the real classes and on the model; getters must agree after every step and the wire round "
          "trip must preserve the view. Wire half for whole packets: built_packet_reparse (any representable stack of the seven families, "
          "once serialized, is parsed back to the same classes and views). Oracle clauses on the implementation's own output: view preserved, "
-         "serialize repeatable, typed getter returns the first value set for verbatim options.",
+         "serialize repeatable, typed getter returns the first value set for verbatim options, a typed getter never rejects what its own "
+         "accepted setter encoded (getter-rejects-own-setter, read under every family's dump convention), and for the 24 typed ICMPv6 "
+         "options returns exactly the representable argument that was set (typed-getter-returns-set-value). Codec half: 104 of the 112 "
+         "typed option codecs of libtins have a theorem decode (encode v) = v for ALL representable v (7 have no getter / are flag "
+         "options, DHCPv6 authentication is correspondence-only); inventory with theorem names, Repr predicates, dump fields and "
+         "oracle clauses: tools/CODEC-INVENTORY.md (tools/codec_inventory.py --check is run by this check).",
     note="The theorems are about hand-written, code-shaped Lean models of 53 entry classes in seven families (link layers, IPv4 + options / AH / ESP, "
          "IPv6 + extension headers, TCP + options / UDP, ICMP / ICMPv6 + extensions, DHCP / DHCPv6 / BootP / RTP / VXLAN / ARP / STP, 802.11 / "
          "RadioTap / EAPOL; list in the evidence: modelled_classes); the tie to the C++ is differential correspondence of every line under "
@@ -27,6 +32,19 @@ MANIFEST["note"] += (" Constants and limits of the C++ source that the model res
 
 def run(chk):
     wire_checks.run_property(chk, "C04", want_parse=False, want_build=True)
+    # the codec inventory: every theorem it names must exist and be audited; its summary goes into the evidence
+    import subprocess, sys, os
+    from vlib import core
+    r = subprocess.run([sys.executable, os.path.join(core.VERIF, "tools", "codec_inventory.py"), "--check"],
+                       capture_output=True, text=True)
+    chk.cov["typed_codecs"] = r.stdout.strip().split("\n")[0][:400]
+    chk.assumptions += ["typed codecs without an inverse theorem (compared with the real code on every run, judged by the oracle "
+                        "clause getter-rejects-own-setter only): DHCPv6 authentication",
+                        "the value clause typed-getter-returns-set-value restates the Repr predicates of Wire/Icmp/ThCodec6.lean on the "
+                        "argument words of the line protocol (Driver/WireSpec.lean: typedExpect); other families' typed getters are "
+                        "judged by getter-rejects-own-setter, last-value-set (verbatim octets) and the model correspondence"]
+    if r.returncode != 0:
+        chk.violation("codec inventory: " + r.stdout.strip()[-600:], ["# tools/codec_inventory.py --check"], nofail=True)
 
 
 def replay(path):
